@@ -186,11 +186,14 @@ func negSystematic(g *Gen, o *Out) {
 		arr := reflect.New(reflect.ArrayOf(2, t)).Elem()
 		arr.Index(0).Set(ev)
 		arr.Index(1).Set(other)
-		datum := map[string]interface{}{"v": e.val, "s": sl.Interface(), "a": arr.Interface(), "i": []interface{}{other.Interface(), e.val}}
+		// interface-typed lists in which an element the operator cannot compare (a nested object, a nested list)
+		// comes before / after the matching element: `in` and `not in` must fail or succeed together
+		datum := map[string]interface{}{"v": e.val, "s": sl.Interface(), "a": arr.Interface(), "i": []interface{}{other.Interface(), e.val},
+			"j": []interface{}{other.Interface(), map[string]interface{}{"k": "v"}, e.val}, "k": []interface{}{e.val, []interface{}{1}, other.Interface()}}
 		lits := append(g.literalsFor(ev), g.literalsFor(other)...)
 		for _, lit := range lits {
 			pair(GMatch{Path: []string{"v"}, Op: "eq", Raw: lit, LitStyle: 2}, datum, e.name)
-			for _, c := range []string{"s", "a", "i"} {
+			for _, c := range []string{"s", "a", "i", "j", "k"} {
 				pair(GMatch{Path: []string{c}, Op: "in", Raw: lit, LitStyle: 2, Contains: g.r.Intn(2) == 0}, datum, c+" of "+e.name)
 			}
 		}
